@@ -130,7 +130,8 @@ def run_value_checks(prop, tier, checks, t0=None, shape_filter=None, timeout=Non
     t0 = t0 or time.time()
     work = C.workdir(prop)
     W.self_check()
-    fam = prepare_family(tier, work)
+    ftier = 'rich' if tier == 'quick' else tier
+    fam = prepare_family(ftier, work)
     timeout = timeout or (60 if tier == 'quick' else 300)
     cap = cap or (4 if tier == 'quick' else 12)
     conds = []
@@ -144,7 +145,7 @@ def run_value_checks(prop, tier, checks, t0=None, shape_filter=None, timeout=Non
         if 'rt' in checks:
             profs = [p for p in profs if aligned_tail(s, p)]
         profs = H.select_profiles(profs, cap)
-        conds += write_value_module(work, tier, fam, s, profs, checks)
+        conds += write_value_module(work, ftier, fam, s, profs, checks)
     raw = run_conditions(conds, timeout)
     obs, _ = to_obligations(prop, conds, raw, schema_text=fam['text'])
     concrete_reach(conds, obs)
